@@ -53,7 +53,10 @@ class ForeverContinueWriteHandler(AbstractWriteHandler):
             logger.warning("While decompiling, tried to generate continue; outside loop!")
             raise FallbackToJump()
         if not self._continue_is_implicit():
-            self.decompiler.source_map_add_opcode(self.start_vertex["op"].offset)
+            # An inserted jump borrows the offset of the op before it; registering it would move that op's entry here.
+            op = self.start_vertex["op"]
+            if not getattr(op.get_marker(), "inserted", False):
+                self.decompiler.source_map_add_opcode(op.offset)
             self.decompiler.write_stmnt("continue;  // may be redundant")
         return None
 
